@@ -43,8 +43,10 @@ func CheckC14(tier string) int {
 	ck := a.App.TIBCKeeper.ClientKeeper
 	periods := []uint64{1, 2, 3600, 1209600}
 	subs := []int64{0, 1, 999999999}
+	span := int64(2) // boundary offsets -span … +span around the trusting period
 	if tier == "thorough" {
-		periods = append(periods, 4, 5, 59, 60, 61, 86400, 31536000, 1<<31, 1<<32)
+		span = 6
+		periods = append(periods, 4, 5, 7, 59, 60, 61, 600, 86400, 604800, 2592000, 31536000, 1<<31, 1<<32)
 		subs = append(subs, 2, 500000000, 999999998)
 	}
 	T := time.Date(2022, 5, 6, 7, 8, 9, 0, time.UTC)
@@ -52,7 +54,7 @@ func CheckC14(tier string) int {
 		for _, P := range periods {
 			// age offsets in the client's own unit
 			var ages []int64
-			for d := int64(-2); d <= 2; d++ {
+			for d := -span; d <= span; d++ {
 				ages = append(ages, int64(P)+d)
 			}
 			for _, tsub := range subs { // sub-second part of the consensus timestamp (Tendermint only)
@@ -61,7 +63,7 @@ func CheckC14(tier string) int {
 					unit := time.Second
 					if kind == "tendermint" {
 						unit = time.Nanosecond
-						for d := int64(-2); d <= 2; d++ {
+						for d := -span; d <= span; d++ {
 							offs = append(offs, time.Duration(P)*time.Second+time.Duration(d))
 						}
 						offs = append(offs, 10*time.Duration(P)*time.Second, time.Duration(P)*time.Second+time.Second, time.Duration(P)*time.Second-time.Second, 0, time.Second)
@@ -344,7 +346,7 @@ func CheckC14(tier string) int {
 		"states": 3*len(periods) + 8, "transitions": evals + msgEvals, "traces_validated_against_impl": evals + msgEvals,
 		"status_points": evals, "expired_points": expired, "active_points": active, "dont_care_points": dontCare, "message_level_submissions": msgEvals,
 		"samples": samples, "exhaustive": true,
-		"bounds": fmt.Sprintf("trusting periods %v s; ages period-2..period+2 units, 0, 10*period, 1e9 s+period; sub-second parts %v ns; client types tendermint (ns), bsc and eth (whole seconds); message level: MsgRecvPacket/MsgAcknowledgement/MsgRecvCleanPacket/MsgUpdateClient through a Tendermint client 10 minutes inside and 10 minutes past the trusting period, MsgRecvPacket through ETH and BSC clients with canonical MPT proofs; BSC and ETH clients after one real header update (ETH delivered 500 s late): status and the next header at header time + period -2..+503 s", periods, subs),
+		"bounds": fmt.Sprintf("trusting periods %v s; ages period-%d..period+%d units, 0, 10*period, 1e9 s+period; sub-second parts %v ns; client types tendermint (ns), bsc and eth (whole seconds); message level: MsgRecvPacket/MsgAcknowledgement/MsgRecvCleanPacket/MsgUpdateClient through a Tendermint client 10 minutes inside and 10 minutes past the trusting period, MsgRecvPacket through ETH and BSC clients with canonical MPT proofs; BSC and ETH clients after one real header update (ETH delivered 500 s late): status and the next header at header time + period -2..+503 s", periods, span, span, subs),
 	}
 	fmt.Fprintf(os.Stderr, "[C14] status points=%d (expired %d, active %d, dont-care %d) message-level=%d (%.1fs)\n", evals, expired, active, dontCare, msgEvals, time.Since(start).Seconds())
 	return report.Finish("C14", tier, start, "model_checking", cov, []string{
